@@ -434,5 +434,28 @@ func TestCases(t *testing.T) {
 	if err != nil {
 		t.Fatal(err)
 	}
+	// the implications that hold "on all strings", on lines the grammar-generated subset does not contain: names made only of bytes that
+	// are removed, every spelling of a number that is not one, signs, blanks around numbers (whatever is accepted must be well formed)
+	for _, line := range []string{"$:1|c", ",,:3|g", "\x01:1|ms", "$$$:1|c|@0.5|#t", "?:x|s", "a:nan|c", "a:NAN|g", "a:nAn|ms", "a:Nan|h", "a:naN|c|@0.5",
+		"a:+Inf|c|@nan", "a:1|c|@NAN", "a:1|c|@nAn|#t", "a:1|c|@+Inf", "a:1|c|@-0", "a:1|g|@0x0p0", "a:0x1p-2|g", "a:1_0|g", "a:1|ms|@1_0", "a: 1|c", "a:1 |c",
+		"a:1|c|@ 0.5", "a:1|c|#", "a:1|c|#,", "a:1|c|#t,", "a:1|c|#,t", "a:1|c|# ", "a:1|c|#t||", " :1|c", "/:1|c", "a:|c", "a:-|g", "a:.|ms", "a:e1|h"} {
+		for _, ns := range []string{"", "stats", "a.b"} {
+			for _, lx := range []*verifhooks.Lexer{verifhooks.NewLexer(0), pooled} {
+				o := runLexer(lx, line, ns)
+				res.Eval(false)
+				rec := map[string]any{"line": line, "namespace": ns, "expect": "unspec (hand-written line)"}
+				if o.panicked != "" {
+					res.Fail("C03", "lexer-panic:extra", fmt.Sprintf("lexer panicked on %q: %s", line, o.panicked), rec)
+					continue
+				}
+				if o.err == nil && o.m != nil {
+					if w := wellFormedMetric(o.m, ns); w != "" {
+						res.Fail("C02", "accepted-not-wellformed:"+strings.SplitN(w, " ", 3)[0], fmt.Sprintf("line %q (namespace %q): %s: %v", line, ns, w, o.m), rec)
+					}
+				}
+			}
+		}
+	}
+	res.Hit("hand-written-lines")
 	res.Distinct = len(distinct)
 }
